@@ -164,13 +164,16 @@ func zzResponderKind(r interface{}) (kind int, name string, seq int32) {
 }
 
 // zzReqReader builds the request reader for ReadRequest: 0 seekable,
-// 1 one-shot non-seekable, 2 arbitrarily chunking non-seekable.
+// 1 one-shot non-seekable, 2 arbitrarily chunking non-seekable, 3 one-shot
+// returning io.EOF together with the last bytes.
 func zzReqReader(kind int, b []byte) io.Reader {
 	switch kind {
 	case 0:
 		return bytes.NewReader(b)
 	case 1:
 		return &zzOneShot{b: b}
+	case 3:
+		return &zzOneShot{b: b, eofWithData: true}
 	}
 	return &zzChunky{b: b, zeros: 1, free: verifParam("free")}
 }
